@@ -34,6 +34,29 @@ theorem cell_nil (R C : Int) (initial factor : Rat) (sh : Shape) :
   · simp [h, Rat.mul_one]
   · simp [h]
 
+theorem pow_nonneg' (x : Rat) (h : 0 ≤ x) (n : Nat) : 0 ≤ x ^ n := by
+  induction n with
+  | zero => simp; decide
+  | succ k ih => rw [Rat.pow_succ]; exact Rat.mul_nonneg ih h
+
+theorem sum_nonneg' (l : List Rat) (h : ∀ x ∈ l, 0 ≤ x) : 0 ≤ l.sum := by
+  induction l with
+  | nil => simp
+  | cons a t ih =>
+    rw [List.sum_cons]
+    exact Rat.add_nonneg (h a List.mem_cons_self) (ih (fun x hx => h x (List.mem_cons_of_mem _ hx)))
+
+theorem le_min' (a b c : Rat) (h1 : a ≤ b) (h2 : a ≤ c) : a ≤ min b c := by
+  rw [Rat.min_def]; split <;> assumption
+
+theorem sumRange_nonneg (f : Int → Rat) (lo hi : Int) (h : ∀ x, 0 ≤ f x) : 0 ≤ sumRange f lo hi := by
+  unfold sumRange
+  apply sum_nonneg'
+  intro x hx
+  simp only [List.mem_map] at hx
+  obtain ⟨k, _, rfl⟩ := hx
+  exact h _
+
 /-- algorithm 1 spelled out in lattice coordinates -/
 theorem distance_alg1_eq (R C : Int) (g : Int → Int → Rat) (src tgt : Idx) :
     distance R C g 1 src tgt =
